@@ -1,4 +1,4 @@
-import CalicoVerif.Proofs.C39
+import CalicoVerif.Proofs.C39Hist
 /-!
 C39 — Overlapping IP pools resolve to one allocatable pool per address.
 
@@ -12,32 +12,6 @@ after `reconcile()` and the API server's removal of finalizer-less deleted objec
 -/
 namespace CalicoVerif.C39
 open CalicoVerif.C36
-
-/-! ### small facts about the per-pool functions -/
-
-theorem applyVerdict_cidr (p : Pool) (v : Verdict) : (applyVerdict p v).cidr = p.cidr := by cases v <;> rfl
-theorem applyVerdict_name (p : Pool) (v : Verdict) : (applyVerdict p v).name = p.name := by cases v <;> rfl
-theorem applyVerdict_deleting (p : Pool) (v : Verdict) : (applyVerdict p v).deleting = p.deleting := by cases v <;> rfl
-theorem applyVerdict_fin (p : Pool) (v : Verdict) : (applyVerdict p v).fin = p.fin := by cases v <;> rfl
-
-theorem applyVerdict_allocTrue (p : Pool) (v : Verdict) :
-    (applyVerdict p v).allocTrue = true ↔ v = .active ∨ (v = .skipped ∧ p.allocTrue = true) := by
-  cases v <;> simp [applyVerdict, Pool.allocTrue]
-
-theorem reconcileFinalizer_keeps (b : List (Bool × Pfx)) (p : Pool) :
-    (reconcileFinalizer b p).cidr = p.cidr ∧ (reconcileFinalizer b p).cond = p.cond ∧
-    (reconcileFinalizer b p).name = p.name ∧ (reconcileFinalizer b p).deleting = p.deleting := by
-  unfold reconcileFinalizer
-  split
-  · split <;> simp
-  · split
-    · simp
-    · split
-      · simp
-      · split <;> simp
-
-theorem overlapP_congr {a a' b b' : Pool} (h1 : a'.cidr = a.cidr) (h2 : b'.cidr = b.cidr) :
-    overlapP a' b' = overlapP a b := by unfold overlapP; rw [h1, h2]
 
 theorem pairwise_mem_or {α : Type} {R : α → α → Prop} : ∀ {l : List α}, l.Pairwise R → ∀ {x y}, x ∈ l → y ∈ l →
     x = y ∨ R x y ∨ R y x
@@ -70,29 +44,8 @@ theorem verdicts_sorted {pools : List Pool} (hw : ∀ p ∈ pools, p.WF) :
 two pools whose `Allocatable` condition is True have disjoint CIDRs. -/
 theorem active_pairwise_disjoint (pools : List Pool) (hw : ∀ p ∈ pools, p.WF) (blocks : List (Bool × Pfx)) :
     (reconcile blocks pools).Pairwise
-      (fun a b => a.allocTrue = true → b.allocTrue = true → overlapP a b = false) := by
-  unfold reconcile gc reconcileConditions
-  refine List.Pairwise.sublist List.filter_sublist ?_
-  rw [List.pairwise_map, List.pairwise_map]
-  have hpw := loopSpec_pairwise (sortPools pools) []
-  rw [← verdicts_eq_spec hw] at hpw
-  refine List.Pairwise.imp_of_mem ?_ hpw
-  intro a b ha hb hR hta htb
-  have ka := reconcileFinalizer_keeps blocks (applyVerdict a.1 a.2)
-  have kb := reconcileFinalizer_keeps blocks (applyVerdict b.1 b.2)
-  rw [overlapP_congr (ka.1.trans (applyVerdict_cidr ..)) (kb.1.trans (applyVerdict_cidr ..))]
-  have hta' : (applyVerdict a.1 a.2).allocTrue = true := by unfold Pool.allocTrue at hta ⊢; rw [← ka.2.1]; exact hta
-  have htb' : (applyVerdict b.1 b.2).allocTrue = true := by unfold Pool.allocTrue at htb ⊢; rw [← kb.2.1]; exact htb
-  rw [verdicts_eq_spec hw] at ha hb
-  have va := loopSpec_verdict _ _ a ha
-  have vb := loopSpec_verdict _ _ b hb
-  rcases (applyVerdict_allocTrue ..).1 hta' with ea | ⟨ea, _⟩
-  · rcases (applyVerdict_allocTrue ..).1 htb' with eb | ⟨eb, _⟩
-    · exact hR (Or.inl ea) eb
-    · have := va.1.1; have hb0 := vb.1.1 eb
-      unfold overlapP; rw [hb0]; cases a.1.cidr <;> rfl
-  · have ha0 := va.1.1 ea
-    unfold overlapP; rw [ha0]
+      (fun a b => a.allocTrue = true → b.allocTrue = true → overlapP a b = false) :=
+  active_pairwise_disjoint_TD pools hw blocks
 
 /-- **(2) An already-allocatable pool is never displaced by a newer overlapping pool.**
 If a pool that was allocatable (Allocatable=True, not being deleted) loses the verdict
@@ -141,6 +94,36 @@ theorem incumbent_stays (pools : List Pool) (hw : ∀ p ∈ pools, p.WF) (hnd : 
   · cases e
   · exact e rfl
   · exact e rfl
+
+/-- **(2'') An allocatable pool stays allocatable.**  In any configuration whose
+Allocatable=True pools are pairwise disjoint (which every reconcile establishes, theorem (1),
+and every event of a history preserves, `history_keeps_true_disjoint`), a pool that is
+allocatable, not being deleted, not administratively disabled and has a valid CIDR is judged
+`active` again — whatever other pools (newer, older, overlapping, terminating) exist. -/
+theorem allocatable_stays_allocatable (pools : List Pool) (hw : ∀ p ∈ pools, p.WF)
+    (hJ : TrueDisjoint pools) (p : Pool) (hp : p ∈ pools) (hcat : p.category = 0)
+    (hd : p.disabled = false) (hc : p.cidr ≠ none) : (p, Verdict.active) ∈ verdicts pools := by
+  rw [verdicts_eq_spec hw]
+  exact loopSpec_incumbents (sortPools pools) [] (sortPools_sorted pools)
+    ((List.mergeSort_perm pools Pool.le).symm.pairwise hJ (fun h => TD.symm h))
+    (fun s hs => by cases hs) (fun s hs => by cases hs) p (mem_sortPools.2 hp) hcat hd hc
+
+/-- **Histories.**  Starting from any state whose True pools are disjoint (in particular the
+empty cluster) every history of pool creations, disablings/enablings, delete requests, block
+additions/removals, finalizer edits and reconciles — everything except another writer forging
+the `Allocatable` condition — keeps them disjoint (and CIDRs well formed). -/
+theorem history_keeps_true_disjoint (es : List Event) (s : State) (hw : ∀ p ∈ s.pools, p.WF)
+    (hJ : TrueDisjoint s.pools) (he : ∀ e ∈ es, e.Benign) :
+    (∀ p ∈ (runEvents s es).pools, p.WF) ∧ TrueDisjoint (runEvents s es).pools :=
+  history_invariant es s hw hJ he
+
+/-- **(2) over histories**: after ANY such history from the empty cluster, at the next
+reconcile every allocatable, non-disabled pool that is not being deleted is kept active. -/
+theorem never_displaced_over_history (es : List Event) (he : ∀ e ∈ es, e.Benign) (p : Pool)
+    (hp : p ∈ (runEvents ⟨[], []⟩ es).pools) (hcat : p.category = 0) (hd : p.disabled = false)
+    (hc : p.cidr ≠ none) : (p, Verdict.active) ∈ verdicts (runEvents ⟨[], []⟩ es).pools := by
+  have h := history_invariant es ⟨[], []⟩ (fun p hp => by cases hp) List.Pairwise.nil he
+  exact allocatable_stays_allocatable _ h.1 h.2 p hp hcat hd hc
 
 /-- **(3) A terminating pool keeps masking overlapping pools until it is gone.**  While a
 pool with a deletion timestamp (and not administratively disabled — a disabled pool never
@@ -244,5 +227,11 @@ example : ((reconcile exBlocks exPools).map (fun p => (p.name, p.allocTrue, p.fi
 /-- once the block is gone the terminating pool is released and removed -/
 example : ((reconcile [] exPools).map (·.name)) = [0, 1, 3] := by
   unfold reconcile reconcileConditions verdicts; rw [exSorted]; decide
+
+
+/-- a benign history from the empty cluster: create A, reconcile, create overlapping older B, reconcile -/
+def exHist : List Event :=
+  [.create 0 (some (false, ⟨0x0a000000, 16⟩)) 5, .reconcile, .create 1 (some (false, ⟨0x0a000000, 8⟩)) 0]
+example : ∀ e ∈ exHist, e.Benign := by decide
 
 end CalicoVerif.C39
